@@ -17,7 +17,7 @@ if [ -n "$TESTS" ]; then (cd $WT && PYTHONPATH=$WT timeout 3000 /venv/bin/python
 res=""
 for C in $CHECKS; do
   out=$(OPTIMISM_REPO=$WT VERIF_OUT=/tmp/seval_out_$$ VERIF_WORKERS=${VERIF_WORKERS:-8} $V/check $C --tier ${TIER:-quick} 2>&1); rc=$?
-  keys=$(echo "$out" | grep "key=" | sed 's/ cases=.*//; s/^ *key=//' | head -5 | tr '\n' ';')
+  keys=$(echo "$out" | grep "^  key=" | sed 's/ cases=.*//; s/^ *key=//' | head -5 | tr '\n' ';')
   echo "check $C rc=$rc keys: $keys"
   res="$res{\"check\":\"$C\",\"rc\":$rc,\"keys\":\"$(echo $keys | sed 's/"/\\"/g')\"},"
 done
